@@ -168,7 +168,7 @@ func (g *graph) chain(t *T, env *T, n int) (any, int) {
 	case "oneof":
 		pick := 0
 		for i, m := range t.Sub {
-			if g.typeReaches(m, env) {
+			if _, sat := g.minimal(m, env, map[node]bool{}); sat && g.typeReaches(m, env) {
 				pick = i
 				break
 			}
@@ -197,7 +197,7 @@ func (g *graph) chain(t *T, env *T, n int) (any, int) {
 	depth := 1
 	if n > 1 {
 		for _, p := range t.Props {
-			if g.typeReaches(p.Type, env) {
+			if _, sat := g.minimal(p.Type, env, map[node]bool{}); sat && g.typeReaches(p.Type, env) {
 				c, d := g.chain(p.Type, env, n-1)
 				out[p.Name] = c
 				depth += d
@@ -266,6 +266,9 @@ func (g *graph) random(t *T, env *T, rng *rand.Rand, depth int, fault float64, m
 		return g.random(t.objByID(t.ID), t, rng, depth, fault, markers)
 	}
 	out := map[string]any{}
+	if depth < -8 {
+		return out // a cycle of required properties: no finite valid input exists
+	}
 	for _, p := range t.Props {
 		if p.Req || (depth > 0 && rng.Intn(2) == 0) {
 			if rng.Float64() < fault/2 {
@@ -345,8 +348,18 @@ func generated(res *resT, p *pair, g *graph, tree, inl *T, gen genT, skip map[st
 	if len(gen.Deep) == 0 || !g.typeReaches(tree, tree) {
 		return
 	}
+	if _, sat := g.minimal(tree, tree, map[node]bool{}); !sat {
+		return // required properties that cannot be satisfied: the root accepts nothing
+	}
+	// the choices of chain() do not depend on n, so the objects visited are eventually periodic with
+	// pre-period + period <= number of objects: if every chain up to that length (+ the two ending
+	// forms) is accepted, a deeper chain repeats only what has been accepted already
 	smallOK := true
-	for _, n := range []int{1, 2, 3, 5} {
+	bound := len(g.succ) + 3
+	if bound > 60 {
+		bound = 60
+	}
+	for n := 1; n <= bound; n++ {
 		v, d := g.chain(tree, tree, n)
 		if d < n {
 			return late // the recursion is not reachable through acceptable inputs at this depth
@@ -359,7 +372,7 @@ func generated(res *resT, p *pair, g *graph, tree, inl *T, gen genT, skip map[st
 		smallOK = smallOK && ok && judged
 	}
 	if !smallOK {
-		res.add(true, map[string]any{"op": "unserialize", "class": "chain_generator"}, map[string]any{"note": "a generated chain was rejected at small depth"})
+		res.add(true, map[string]any{"op": "unserialize", "class": "chain_generator"}, map[string]any{"note": "a generated chain was rejected at small depth", "error": res.lastErr})
 		return late
 	}
 	for _, n := range gen.Deep {
@@ -374,7 +387,7 @@ func generated(res *resT, p *pair, g *graph, tree, inl *T, gen genT, skip map[st
 		}
 		if judged && !ok {
 			res.add(false, map[string]any{"op": "unserialize", "class": "depth_dependent"},
-				map[string]any{"depth": d, "note": "the same chain is accepted at depths 1,2,3,5 and rejected here"})
+				map[string]any{"depth": d, "error": res.lastErr, "note": "every chain shorter than one full period is accepted, this one (same objects, repeated) is rejected"})
 		}
 	}
 	return late
@@ -525,7 +538,7 @@ func (tg *treeGen) genObj(id string, scopeIDs []string, depth, level int) *T {
 	if tg.rng.Intn(100) < 85 {
 		props = append(props, P{Name: tag, Type: leaf()})
 	}
-	np := tg.rng.Intn(2 + tg.size)
+	np := 1 + tg.rng.Intn(1+tg.size)
 	for i := 0; i < np; i++ {
 		props = append(props, P{Name: fmt.Sprintf("p%d", i+1), Req: tg.rng.Intn(10) == 0, Type: tg.genType(scopeIDs, depth, level+1)})
 	}
@@ -574,7 +587,7 @@ func (tg *treeGen) genScope(depth int) *T {
 	tag := tg.tag("s")
 	pool := []string{"A", "B", "C", "D"}
 	tg.rng.Shuffle(len(pool), func(i, j int) { pool[i], pool[j] = pool[j], pool[i] })
-	oids := pool[:1+tg.rng.Intn(3)]
+	oids := pool[:1+tg.rng.Intn(2+tg.size/2)]
 	objs := make([]*T, len(oids))
 	for i, id := range oids {
 		objs[i] = tg.genObj(id, oids, depth, 0)
